@@ -833,6 +833,12 @@ static void* reb_simulation_integrate_raw(void* args){
 
     if (thread_info->tmax != r->t){
         int dt_sign = (thread_info->tmax > r->t) ? 1.0 : -1.0; // determine integration direction
+        if (copysign(r->dt, dt_sign) != r->dt){
+            // Direction changes. Sub-steps that are still pending belong to the old direction.
+            reb_server_lock_for_integrate(r);
+            reb_simulation_synchronize(r);
+            reb_server_unlock_for_integrate(r);
+        }
         r->dt = copysign(r->dt, dt_sign);
     }
 
